@@ -128,15 +128,28 @@ def wrapperPredict (sqrt : α → α) (estFitted : Bool) (estMean : List α) (es
 /-- `scipy.stats.norm(loc, scale).mean()`: scipy reports NaN (`none`) unless `scale > 0`. -/
 def normMean (loc scale : α) : Option α := if (0 : α) < scale then some loc else none
 
-/-- `scipy.stats.norm(loc, scale).std()`. -/
-def normStd (scale : α) : Option α := if (0 : α) < scale then some scale else none
+/-- `scipy.stats.norm(loc, scale).std()`: scipy takes the square root of the variance `scale²`
+(so a scale whose square underflows, like `tiny`, is reported as `0.0` in floating point). -/
+def normStd (sqrt : α → α) (scale : α) : Option α :=
+  if (0 : α) < scale then some (sqrt (scale * scale)) else none
+
+/-- `np.maximum(scale, np.finfo(float).tiny)`: the scale handed to `scipy.stats.norm` is bounded from
+below by the positive constant `tiny` (the driver passes the smallest normal double). -/
+def boundScale (tiny s : α) : α := if s < tiny then tiny else s
 
 /-- `SklearnNormalRegressor.predict(X, return_std=True)` when the wrapped estimator is not fitted:
-`norm(loc=_label_mean, scale=_label_std)` at every query point, then `rv.mean()`, `rv.std()`. -/
-def normalFallbackPredict (sqrt : α → α) (ys : List α) (nQuery : Nat) : List (Option α) × List (Option α) :=
+`norm(loc=_label_mean, scale=max(_label_std, tiny))` at every query point, then `rv.mean()`, `rv.std()`. -/
+def normalFallbackPredict (sqrt : α → α) (tiny : α) (ys : List α) (nQuery : Nat) :
+    List (Option α) × List (Option α) :=
+  let m := labelMean ys
+  let s := boundScale tiny (labelStd sqrt ys)
+  (List.replicate nQuery (normMean m s), List.replicate nQuery (normStd sqrt s))
+
+/-- the definition before the repair (scale not bounded): kept for the regression theorem only. -/
+def normalFallbackPredictOld (sqrt : α → α) (ys : List α) (nQuery : Nat) : List (Option α) × List (Option α) :=
   let m := labelMean ys
   let s := labelStd sqrt ys
-  (List.replicate nQuery (normMean m s), List.replicate nQuery (normStd s))
+  (List.replicate nQuery (normMean m s), List.replicate nQuery (normStd sqrt s))
 
 /-- `_sample` fallback: `y = randn(len(X), n_samples); y *= _label_std; y += _label_mean`. -/
 def fallbackSample (z : List (List α)) (std mean : α) : List (List α) :=
